@@ -279,16 +279,25 @@ Qed.
 
 (* after IF c THEN a : b ... an error in the condition resumes at b (the next statement after a colon) *)
 Lemma next_colon_if code p c a s' : nth_error code p = Some (SIf c None) ->
-  nth_error code (S p) = Some a -> then_joined a = false -> (forall n, a <> SLine n) -> a <> SEndProg ->
+  nth_error code (S p) = Some a -> then_joined a = false ->
+  (forall n, a <> SLine n) -> a <> SEndProg -> (forall j, a <> SElse j) ->
   nth_error code (S (S p)) = Some s' ->
   next_colon code p = S (S p).
 Proof.
-  intros H Ha Hta Hl He Hs. unfold next_colon.
+  intros H Ha Hta Hl He Hel Hs. unfold next_colon.
   rewrite (nth_error_skipn _ _ _ H), (nth_error_skipn _ _ _ Ha), (nth_error_skipn _ _ _ Hs).
   set (R := skipn (S (S (S p))) code).
   assert (E1 : next_colon_from (a :: s' :: R) (S p) (SIf c None) = next_colon_from (s' :: R) (S (S p)) a).
-  { destruct a; try reflexivity; [exfalso; eapply Hl; reflexivity | congruence]. }
+  { destruct a; try reflexivity; exfalso;
+      [eapply Hl; reflexivity | apply He; reflexivity | eapply Hel; reflexivity]. }
   rewrite E1. destruct s'; simpl; rewrite ?Hta; reflexivity.
+Qed.
+
+(* IF c THEN ELSE ...: the ELSE itself is the next statement after a colon (and skips the line) *)
+Lemma next_colon_else code p s j : nth_error code p = Some s -> nth_error code (S p) = Some (SElse j) ->
+  next_colon code p = S p.
+Proof.
+  intros H Ha. unfold next_colon. rewrite (nth_error_skipn _ _ _ H), (nth_error_skipn _ _ _ Ha). reflexivity.
 Qed.
 
 Lemma resume_without_error code st r : nth_error code (pc st) = Some (SResume r) ->
